@@ -124,7 +124,8 @@ def build(case):
     import pywhy_graphs.networkx as pywhy_nx
     g = case["g"]
     lab, inv = labels(case)
-    M = pywhy_nx.MixedEdgeGraph(graphs=[nx.DiGraph(), nx.Graph()], edge_types=["directed", "bidirected"])
+    dn, bn = case.get("names") or ["directed", "bidirected"]
+    M = pywhy_nx.MixedEdgeGraph(graphs=[nx.DiGraph(), nx.Graph()], edge_types=[dn, bn])
     # node attributes are attached in four different ways (mixed per case by case["aseed"]): only mode 0 is mirrored
     # into the per-layer graphs, so an implementation that reads attributes from a layer instead of G.nodes loses the rest
     aseed = case.get("aseed", 0)
@@ -140,7 +141,7 @@ def build(case):
         elif mode[v] == 2:
             M.add_nodes_from([(lab(v), attrs[v])])              # per-node dict of add_nodes_from
         # mode 3: created implicitly by add_edge (or below), annotated afterwards
-    es = [("directed", a, b) for a, b in g["D"]] + [("bidirected", a, b) for a, b in g["B"]]
+    es = [(dn, a, b) for a, b in g["D"]] + [(bn, a, b) for a, b in g["B"]]
     for k, a, b in gr.ordered(case, es, "E"):
         M.add_edge(lab(a), lab(b), k)
     late = {}
@@ -156,14 +157,18 @@ def build(case):
     return M, lab, inv
 
 
-def run_impl(case):
+def neighbour(case):
+    """the graph the object is first built for in a REPEAT case (same nodes; same edge counts where possible)"""
+    import random
+    rr = random.Random(case["rep"])
+    g = case["g"]
+    g0 = gr.perturb(g, rr, acyclic=True) or gr.perturb(g, rr, keep_counts=False, acyclic=True) or g
+    return g0, rr
+
+
+def observe(M, R, case, lab, inv):
     import networkx as nx
-    import pywhy_graphs.networkx as pywhy_nx
-    from pywhy_graphs.networkx.algorithms.causal.convert import bidirected_to_unobserved_confounder
-    M, lab, inv = build(case)
-    before = gr.snapshot(M)
-    R = bidirected_to_unobserved_confounder(M)
-    out = {"mutated": gr.snapshot(M) != before, "type": type(R).__name__}
+    out = {"type": type(R).__name__}
     orig = {lab(v) for v in case["g"]["V"]}
     out["kept"] = all(x in R for x in orig)
     out["attrs"] = all(dict(R.nodes[x]) == dict(M.nodes[x]) and len(R.nodes[x]) == 3 for x in orig if x in R)
@@ -183,19 +188,79 @@ def run_impl(case):
     out["latents"] = sorted(latents)
     out["bad"] = sorted(set(bad))
     out["dag"] = bool(nx.is_directed_acyclic_graph(R))
-    ds, ms = [], []
-    for X, Y, Z in case["qs"]:
-        X, Y, Z = ({lab(v) for v in S} for S in (X, Y, Z))
-        try:
-            ds.append(int(bool(nx.is_d_separator(R, X, Y, Z))))
-        except Exception as e:  # noqa
-            ds.append("exc:" + type(e).__name__)
-        try:
-            ms.append(int(bool(pywhy_nx.m_separated(M, X, Y, Z))))
-        except Exception as e:  # noqa
-            ms.append("exc:" + type(e).__name__)
-    out["dsep_result"] = ds
-    out["msep_input"] = ms
+    return out
+
+
+def run_impl(case):
+    import networkx as nx
+    import pywhy_graphs.networkx as pywhy_nx
+    from pywhy_graphs.networkx.algorithms.causal.convert import bidirected_to_unobserved_confounder
+    g = case["g"]
+    names = case.get("names")
+    dn, bn = names or ["directed", "bidirected"]
+    kw = {"directed_edge_name": dn, "bidirected_edge_name": bn} if names else {}
+
+    def convert(Gx):
+        return bidirected_to_unobserved_confounder(Gx, **kw)
+
+    def queries(Mx, Rx):
+        ds, ms = [], []
+        for X, Y, Z in case["qs"]:
+            X, Y, Z = ({lab(v) for v in S} for S in (X, Y, Z))
+            try:
+                ds.append(int(bool(nx.is_d_separator(Rx, X, Y, Z))))
+            except Exception as e:  # noqa
+                ds.append("exc:" + type(e).__name__)
+            try:
+                ms.append(int(bool(pywhy_nx.m_separated(Mx, X, Y, Z, **kw))))
+            except Exception as e:  # noqa
+                ms.append("exc:" + type(e).__name__)
+        return ds, ms
+
+    rep = case.get("rep")
+    if rep is None:
+        M, lab, inv = build(case)
+    else:
+        # REPEAT: build the object for a neighbour graph, use it (answers discarded), then turn it into g in place
+        g0, rr = neighbour(case)
+        M, lab, inv = build(dict(case, g=g0))
+        R0 = convert(M)
+        queries(M, R0)
+        if rr.random() < 0.5:
+            gr.morph(M, g0, g, lab, {"D": dn, "B": bn})              # edge-by-edge edits
+        else:
+            for name, mk, es in ((bn, nx.Graph, g["B"]), (dn, nx.DiGraph, g["D"])):   # replace the layer objects
+                if name == dn and rr.random() < 0.5:
+                    continue
+                M.remove_edge_type(name)
+                L = mk()
+                L.add_edges_from((lab(a), lab(b)) for a, b in es)
+                M.add_edge_type(L, name)
+            gr.morph(M, g0, g, lab, {"D": dn, "B": bn}) if False else None
+            if gr.from_mixed is not None:
+                # a layer that was not replaced still holds g0's edges: finish with in-place edits
+                cur_d = {tuple(e) for e in ((inv(a), inv(b)) for a, b in M.get_graphs(dn).edges)}
+                for a, b in sorted(cur_d - {tuple(e) for e in g["D"]}):
+                    M.remove_edge(lab(a), lab(b), dn)
+                for a, b in sorted({tuple(e) for e in g["D"]} - cur_d):
+                    M.add_edge(lab(a), lab(b), dn)
+    before = gr.snapshot(M)
+    R = convert(M)
+    out = {"mutated": gr.snapshot(M) != before}
+    out.update(observe(M, R, case, lab, inv))
+    out["dsep_result"], out["msep_input"] = queries(M, R)
+    if rep is not None:
+        # the caller edits the returned object; converting again (same object, and a copy of it) must still be right
+        first = observe(M, R, case, lab, inv)
+        for x in list(R.nodes)[:2]:
+            R.remove_node(x)
+        R.graph.clear()
+        again = observe(M, convert(M), case, lab, inv)
+        Mc = M.copy()
+        copy_obs = observe(Mc, convert(Mc), case, lab, inv)
+        out["second_call_same"] = again == first
+        out["copy_same"] = copy_obs == first
+        out["mutated"] = out["mutated"] or gr.snapshot(M) != before
     return out
 
 
@@ -229,6 +294,10 @@ def compare(case, impl, model):
         return "d-separation(result)"
     if impl["msep_input"] != impl["dsep_result"]:
         return "m_separated(input)-vs-d-separation(result)"
+    if impl.get("second_call_same") is False:
+        return "second-call-after-editing-the-result"
+    if impl.get("copy_same") is False:
+        return "result-on-copy"
     return None
 
 
@@ -237,7 +306,7 @@ def nontrivial(case, model):
 
 
 def key(case):
-    return (gr.canon(case["g"]), case.get("fam"))
+    return (gr.canon(case["g"]), case.get("fam"), case.get("rep") is not None, tuple(case.get("names") or ()))
 
 
 def shrink(case):
